@@ -425,7 +425,7 @@ std::u32string nfc(std::u32string_view s) {
 // ------------------------------------------------------------------ Punycode (RFC 3492)
 namespace {
 constexpr uint64_t base = 36, tmin = 1, tmax = 26, skew = 38, damp = 700, initial_bias = 72, initial_n = 128;
-constexpr uint64_t maxint = 0xFFFFFFFFull;  // see header: the sample code's 32-bit punycode_uint
+constexpr uint64_t default_maxint = 0xFFFFFFFFull;  // see header: the sample code's 32-bit punycode_uint
 
 // 6.1 Bias adaptation function
 uint64_t adapt(uint64_t delta, uint64_t numpoints, bool firsttime) {
@@ -454,7 +454,10 @@ uint64_t threshold(uint64_t k, uint64_t bias) {
 }
 }  // namespace
 
-std::optional<std::string> punycode_encode(std::u32string_view input) {
+std::optional<std::string> punycode_encode(std::u32string_view input) { return punycode_encode_maxint(input, default_maxint); }
+std::optional<std::u32string> punycode_decode(std::string_view input) { return punycode_decode_maxint(input, default_maxint); }
+
+std::optional<std::string> punycode_encode_maxint(std::u32string_view input, uint64_t maxint) {
   for (char32_t c : input)
     if (c > 0x10FFFF || (c >= 0xD800 && c <= 0xDFFF)) return std::nullopt;
   // 6.3 Encoding procedure
@@ -497,7 +500,7 @@ std::optional<std::string> punycode_encode(std::u32string_view input) {
   return output;
 }
 
-std::optional<std::u32string> punycode_decode(std::string_view input) {
+std::optional<std::u32string> punycode_decode_maxint(std::string_view input, uint64_t maxint) {
   // 6.2 Decoding procedure
   uint64_t n = initial_n, i = 0, bias = initial_bias;
   std::u32string output;
